@@ -40,4 +40,6 @@ def rule_physical_rows(ctx):
     ctx.res.minimum("O7.4", 1)
 
 
-RULES = [rule_window, rule_until, rule_physical_rows]
+from .common import rule_module_state  # noqa: E402
+
+RULES = [rule_window, rule_until, rule_physical_rows, rule_module_state]
